@@ -43,14 +43,20 @@ pub struct RxParams {
 async fn read_to_end(st: Arc<Stream>, buf_size: usize) -> (Vec<u8>, Option<bool>) {
     let reader = st.reader().clone();
     let mut out = vec![];
-    let mut buf = vec![0u8; buf_size];
+    // buf_size 0 = read calls alternating between zero-length (a legal call that must return 0 and consume
+    // nothing) and 7 bytes
+    let mut buf = vec![0u8; if buf_size == 0 { 7 } else { buf_size }];
+    let mut call = 0usize;
     loop {
+        let size = if buf_size == 0 && call % 2 == 0 { 0 } else { buf.len() };
+        call += 1;
         let r = {
             let mut g = reader.lock().await;
-            within(g.read(&mut buf)).await
+            within(g.read(&mut buf[..size])).await
         };
         match r {
             None => return (out, None),
+            Some(Ok(0)) if size == 0 => {}
             Some(Ok(0)) => return (out, Some(true)),
             Some(Err(_)) => return (out, Some(false)),
             Some(Ok(n)) => out.extend_from_slice(&buf[..n]),
@@ -229,7 +235,7 @@ pub fn items(tier: Tier) -> Vec<DxItem> {
     for client_role in [true, false] {
         for frames in 0..=3usize {
             for mode in [ReaderMode::Blocked, ReaderMode::Later, ReaderMode::Partial] {
-                for read_buf in [1usize, 7, 10, 11, 8192] {
+                for read_buf in [0usize, 1, 7, 10, 11, 8192] {
                     for sibling in [false, true] {
                         if !thorough && sibling && read_buf != 7 {
                             continue;
